@@ -89,9 +89,7 @@ Section BridgeMain.
       unfold filter_agrees in AG. cbn [forallb] in AG. apply andb_true_iff in AG. destruct AG as [AG _].
       apply Bool.eqb_prop in AG. cbn [filter]. rewrite AG. auto.
     - (* the group { BIND } *)
-      cbn [shape lower sem eval agree] in *. apply join_perm_r.
-      unfold bind_agrees in AG. cbn [forallb] in AG. apply andb_true_iff in AG. destruct AG as [AG _].
-      apply mu_eqb_eq in AG. cbn [map]. rewrite AG. auto.
+      cbn [shape lower sem eval] in *. apply join_perm_r. cbn [flat_map]. rewrite app_nil_r, ebind_unit. auto.
     - (* VALUES *)
       cbn [shape lower sem eval]. auto.
     - (* sub-select *)
